@@ -2,6 +2,7 @@ import XMT.Drv.Util
 import XMT.Drv.C01
 import XMT.Batch
 import XMT.Drv.C15
+import XMT.BatchS3Drv
 namespace XMT.Drv.C03
 open XMT XMT.Drv XMT.Batch
 
@@ -31,6 +32,28 @@ def handle (args : List String) : String :=
       | .error e => "err " ++ XMT.Drv.C01.showPErr e
   -- the server's reply path when proxying: the routing model of C15 (XMT/Route.lean)
   | "srv" :: rest => XMT.Drv.C15.handle ("srv" :: rest)
+  -- s3: tag-heavy queues; tokens with tag runs, one summary per transmission (tags: count, sum, Marshal)
+  | "drainT" :: p :: f :: last :: dev :: toks =>
+    match natOf p, natOf f, natOf last, ofHex dev, toks.mapM XMT.BatchS3Drv.parsePktR with
+    | some p, some f, some last, some dev, some ps =>
+      let outs := XMT.BatchS3Drv.drainT p f dev (ps.length + 5) { q := ps, peek := none, last := last } []
+      if outs.isEmpty then "." else " | ".intercalate outs
+    | _, _, _, _, _ => "bad-op"
+  -- s3: Session.next with the PRNG words of verifyPacket scripted (`words` = comma separated, cycled)
+  | "drainJ" :: p :: f :: last :: dev :: words :: toks =>
+    match natOf p, natOf f, natOf last, ofHex dev, (splitOn1 words ',').mapM natOf, toks.mapM XMT.Drv.C01.parsePkt with
+    | some p, some f, some last, some dev, some ws, some ps =>
+      " ".intercalate (XMT.BatchS3Drv.drainJ (XMT.BatchS3Drv.wordsOf ws.toArray) p f dev (ps.length + 5)
+        { q := ps, peek := none, last := last } 0 [])
+    | _, _, _, _, _, _ => "bad-op"
+  -- s3: histories of queue / next(true) / next(false) events in every session mode (all arms of pick)
+  | "histB" :: p :: f :: dev :: cl :: pn :: evs =>
+    match natOf p, natOf f, ofHex dev, natOf cl, natOf pn with
+    | some p, some f, some dev, some cl, some pn =>
+      match XMT.BatchS3Drv.histB p f dev (cl = 1) (pn = 1) evs { q := [], peek := none, last := 0 } [] with
+      | some outs => if outs.isEmpty then "." else " ".intercalate outs
+      | none => "bad-op"
+    | _, _, _, _, _ => "bad-op"
   | _ => "bad-op"
 
 end XMT.Drv.C03
